@@ -76,7 +76,14 @@ func newPair() *cpuPair {
 	b.Attach(p.memP, "all", 0, 0xFFFFFF)
 	p.pri, _ = cpu65c816.New(b)
 	p.alt = &cpualt.CPU{}
-	p.alt.Init()
+	if seedEnv()%2 == 1 {
+		// the documented way to derive one CPU from another: the copy must be a fully independent CPU
+		tmpl := &cpualt.CPU{}
+		tmpl.Init()
+		p.alt.InitFrom(tmpl)
+	} else {
+		p.alt.Init()
+	}
 	p.alt.Bus.AttachReader(0, 0xFFFFFF, p.memA.Read)
 	p.alt.Bus.AttachWriter(0, 0xFFFFFF, p.memA.Write)
 	p.reseed(1)
